@@ -138,6 +138,9 @@ def dispatch(ex, recv, method, e, kwargs, st, awaited, yield_from):
     table = resolve(ex.reg, method)
     if not table:
         raise Unsupported('no contract for method %s (line %d)' % (method, e.lineno))
+    if isinstance(e.func.value, ast.Name) and e.func.value.id == 'self' and ex.info.cls in MRO:
+        # `self` is an instance of the class being verified or of one of its subclasses
+        table = {cls: c for cls, c in table.items() if ex.info.cls in MRO.get(cls, [])} or table
     groups = {}
     for cls, c in table.items():
         groups.setdefault(c.qualname, (c, []))[1].append(cls)
@@ -293,6 +296,15 @@ def run_contract(ex, c, argmap, st, e, yield_from=False):
     for label, fn in c._requires:
         goal = fn(ctx0)
         ex.oblige(st, '%s:%s' % (site, label), goal, 'call-pre', ctx0, lineno=getattr(e, 'lineno', None))
+    if c.kind == 'function' and getattr(c, 'syntactic', None) is None and c.pure is None:
+        # the callee assumes the heap invariants on entry: they must hold at the call (they may be
+        # temporarily broken between two statements of the caller)
+        for lab, fm in WF.wf_obligations(st, ex.all_modified(st)):
+            ex.oblige(st, '%s:wf:%s' % (site, lab), fm, 'call-pre', ctx0, lineno=getattr(e, 'lineno', None))
+        for pname, pkind, _d in c.params:
+            if str(pkind).replace('kw:', '') in ('set', 'list', 'varargs') and pname in argmap:
+                ex.oblige(st, '%s:argument-%s-is-a-live-object' % (site, pname), st.alive(argmap[pname]), 'call-pre',
+                          ctx0, lineno=getattr(e, 'lineno', None))
     # schematic preconditions: proved for fresh parameters (the caller's own schema of the same name,
     # instantiated at those parameters, is available)
     for sname, (sfn, mk) in c.schemas.items():
